@@ -177,21 +177,21 @@ Proof.
     exfalso. apply Hne. f_equal. apply Hub; auto; congruence.
 Qed.
 
-Definition new_rec (legacy : bool) (s : st) (c : cid) (f : fid) (decl : list key) (d : srd) : frec :=
+Definition new_rec (legacy stk : bool) (s : st) (c : cid) (f : fid) (decl : list key) (d : srd) : frec :=
   committed (filter (okf s c) (nodupN decl))
-            (mk_frec c f (s_next s) (eff_sr legacy d) (nodupN decl) [] true true false (s_inc s c) c).
+            (mk_frec c f (s_next s) (eff_sr legacy d) (nodupN decl) [] true true false (s_inc s c) c stk).
 
-Lemma do_def_imm_lv legacy started rt c f decl d s :
+Lemma do_def_imm_lv legacy started rt stk c f decl d s :
   negb legacy && negb started = false -> WInv s -> NoPend (s_funcs s) -> UB (lv s) ->
-  lv (do_def all_off legacy started rt c f decl d s)
-  = filter (fun r => negb (same_name c f r)) (lv s) ++ [new_rec legacy s c f decl d].
+  lv (do_def all_off legacy started rt stk c f decl d s)
+  = filter (fun r => negb (same_name c f r)) (lv s) ++ [new_rec legacy stk s c f decl d].
 Proof.
   intros Hmode HW HNP Hub. pose proof HW as (HC & HF). rewrite do_def_off. cbn zeta. rewrite Hmode.
-  set (g := s_next s). set (nr := mk_frec c f g (eff_sr legacy d) (nodupN decl) [] true true false (s_inc s c) c).
+  set (g := s_next s). set (nr := mk_frec c f g (eff_sr legacy d) (nodupN decl) [] true true false (s_inc s c) c stk).
   set (s1 := set_funcs (set_next s (g + 1)) (s_funcs s ++ [nr])).
   assert (Hg : ~ In g (gens (s_funcs s))).
   { intros H. unfold gens in H. apply in_map_iff in H. destruct H as (r & E & Hr). pose proof (w_next _ HC r Hr). unfold g in E. lia. }
-  assert (Hf2 : s_funcs (commit false s1 nr) = s_funcs s ++ [new_rec legacy s c f decl d]).
+  assert (Hf2 : s_funcs (commit false s1 nr) = s_funcs s ++ [new_rec legacy stk s c f decl d]).
   { rewrite (commit_false_eq s1 nr eq_refl). cbn [set_funcs s_funcs s1]. unfold upd_rec. rewrite map_app. fold (upd_rec (f_gen nr) (committed (filter (okf s1 (f_ctx nr)) (f_decl nr))) (s_funcs s)).
     rewrite upd_rec_notin_id by exact Hg. cbn [map f_gen nr]. rewrite N.eqb_refl. reflexivity. }
   destruct (find_bound (set_next s (g + 1)) c f) as [r0|] eqn:Efb.
@@ -238,11 +238,11 @@ Proof.
   destruct (reg_loop_spec (f_ctx r) (f_gen r, f_sr r) (f_decl r) s []) as (_ & _ & _ & A & B & _). auto.
 Qed.
 
-Lemma do_def_frame legacy started rt c f decl d s :
-  s_next (do_def all_off legacy started rt c f decl d s) = s_next s + 1 /\ s_files (do_def all_off legacy started rt c f decl d s) = s_files s.
+Lemma do_def_frame legacy started rt stk c f decl d s :
+  s_next (do_def all_off legacy started rt stk c f decl d s) = s_next s + 1 /\ s_files (do_def all_off legacy started rt stk c f decl d s) = s_files s.
 Proof.
   rewrite do_def_off. cbn zeta.
-  set (nr := mk_frec c f (s_next s) (eff_sr legacy d) (nodupN decl) [] true true (negb legacy && negb started) (s_inc s c) c).
+  set (nr := mk_frec c f (s_next s) (eff_sr legacy d) (nodupN decl) [] true true (negb legacy && negb started) (s_inc s c) c stk).
   set (s1 := set_funcs (set_next s (s_next s + 1)) (s_funcs s ++ [nr])).
   assert (H2 : s_next (if negb legacy && negb started then s1 else commit false s1 nr) = s_next s + 1 /\
                s_files (if negb legacy && negb started then s1 else commit false s1 nr) = s_files s).
@@ -272,15 +272,15 @@ Proof. intros Hub r1 r2 H1 H2. apply filter_In in H1, H2. apply Hub; tauto. Qed.
 Lemma mt_same_name c f r d : mt r d -> negb (same_name c f r) = negb (N.eqb (r_ctx d) c && N.eqb (r_name d) f).
 Proof. intros (Ec & Ef & _). unfold same_name. rewrite Ec, Ef. reflexivity. Qed.
 
-Lemma rel_def_imm legacy started rt c f decl d s t :
+Lemma rel_def_imm legacy started rt stk c f decl d s t :
   negb legacy && negb started = false -> Rel s t ->
-  Rel (do_def all_off legacy started rt c f decl d s) (ref_def c t f decl d).
+  Rel (do_def all_off legacy started rt stk c f decl d s) (ref_def c t f decl d).
 Proof.
   intros Hmode HR. pose proof HR as [HW HNP En Efi HL Hub].
-  destruct (winv_do_def_imm legacy started rt c f decl d s (c :: map f_ctx (s_funcs s)) Hmode HW HNP) as (HW' & HNP' & _).
+  destruct (winv_do_def_imm legacy started rt stk c f decl d s (c :: map f_ctx (s_funcs s)) Hmode HW HNP) as (HW' & HNP' & _).
   { intros r Hr. right. apply in_map. assumption. } { left; reflexivity. }
-  destruct (do_def_frame legacy started rt c f decl d s) as (En' & Efi').
-  pose proof (do_def_imm_lv legacy started rt c f decl d s Hmode HW HNP Hub) as Elv.
+  destruct (do_def_frame legacy started rt stk c f decl d s) as (En' & Efi').
+  pose proof (do_def_imm_lv legacy started rt stk c f decl d s Hmode HW HNP Hub) as Elv.
   constructor; auto.
   - cbn. rewrite En', En. reflexivity.
   - cbn. rewrite Efi'. assumption.
@@ -312,7 +312,8 @@ Lemma rel_body_imm legacy started c b : forall s t,
   Rel (run_body all_off legacy started c b s) (ref_body c b t).
 Proof.
   unfold run_body, ref_body. induction b as [|x b IH]; intros s t Hmode HR; cbn [fold_left]; [assumption|].
-  apply IH; [assumption|]. destruct x as [f decl d|f decl d|f]; cbn [run_stmt ref_stmt].
+  apply IH; [assumption|]. destruct x as [f decl d|f decl d|f decl d|f]; cbn [run_stmt ref_stmt].
+  - apply rel_def_imm; assumption.
   - apply rel_def_imm; assumption.
   - apply rel_def_imm; assumption.
   - apply rel_del_imm; assumption.
@@ -615,8 +616,8 @@ Definition started_fn (c : cid) (s : st) (todo : list gen) (r : frec) : frec :=
 Lemma start_loop_exact c todo : forall s, WInv s -> StronglySorted N.lt todo ->
   (forall g, In g todo -> exists r, In r (s_funcs s) /\ f_gen r = g /\ f_ctx r = c /\ f_pending r = true) ->
   (forall r, In r (s_funcs s) -> f_ctx r = c -> f_held r <> [] -> forall g, In g todo -> f_gen r < g) ->
-  s_funcs (fold_left start_one todo s) = map (started_fn c s todo) (s_funcs s) /\
-  (forall k, okf (fold_left start_one todo s) c k = okf s c k).
+  s_funcs (fold_left (start_one all_off) todo s) = map (started_fn c s todo) (s_funcs s) /\
+  (forall k, okf (fold_left (start_one all_off) todo s) c k = okf s c k).
 Proof.
   induction todo as [|g todo IH]; intros s HW Hs Hex Hord; cbn [fold_left].
   - split; [|auto]. rewrite <- (map_id (s_funcs s)) at 1. apply map_ext. intros x. reflexivity.
@@ -625,7 +626,7 @@ Proof.
     pose proof HW as (HC & HF). pose proof (core_nodup s HC) as Hnd.
     assert (Hh : f_held r = []) by (destruct (HF r Hr) as (A & _); apply A; assumption).
     assert (Eown : f_own r = f_ctx r) by apply (HF r Hr).
-    assert (Hso : start_one s g = commit false s r) by (unfold start_one; rewrite (find_gen _ g r Hnd Hr Eg), Ep; reflexivity).
+    assert (Hso : start_one all_off s g = commit false s r) by (unfold start_one; rewrite (find_gen _ g r Hnd Hr Eg), Ep; reflexivity).
     destruct (winv_start_loop c [g] s HW) as (HW1 & _).
     { repeat constructor. } { intros g' [<-|[]]. exists r. auto. } { intros r' H' Ec' Hh' g' [<-|[]]. apply Hord; auto. left; reflexivity. }
     cbn [fold_left] in HW1. rewrite Hso in *.
@@ -663,20 +664,20 @@ Proof.
 Qed.
 
 Definition kill (x : frec) : frec := with_pending false (with_bound false x).
-Definition pend_rec (s : st) (c : cid) (f : fid) (decl : list key) (d : srd) : frec :=
-  mk_frec c f (s_next s) (eff_sr false d) (nodupN decl) [] true true true (s_inc s c) c.
+Definition pend_rec (stk : bool) (s : st) (c : cid) (f : fid) (decl : list key) (d : srd) : frec :=
+  mk_frec c f (s_next s) (eff_sr false d) (nodupN decl) [] true true true (s_inc s c) c stk.
 
 (* a definition while the context is loading: nothing is registered, the previous waiting manager is cancelled *)
-Lemma do_def_pend_exact rt c f decl d s : WInv s -> UB (lv s) ->
+Lemma do_def_pend_exact rt stk c f decl d s : WInv s -> UB (lv s) ->
   (forall r, In r (lv s) -> f_ctx r = c -> f_pending r = true) ->
-  let s' := do_def all_off false false rt c f decl d s in
-  lv s' = filter (fun r => negb (same_name c f r)) (lv s) ++ [pend_rec s c f decl d] /\
+  let s' := do_def all_off false false rt stk c f decl d s in
+  lv s' = filter (fun r => negb (same_name c f r)) (lv s) ++ [pend_rec stk s c f decl d] /\
   (forall k, okf s' c k = okf s c k) /\
-  (exists phi, s_funcs s' = map phi (s_funcs s) ++ [pend_rec s c f decl d] /\
+  (exists phi, s_funcs s' = map phi (s_funcs s) ++ [pend_rec stk s c f decl d] /\
                forall x, In x (s_funcs s) -> phi x = x \/ (phi x = kill x /\ f_ctx x = c)).
 Proof.
   intros HW Hub Hcp. pose proof HW as (HC & HF). cbn zeta. rewrite do_def_off. cbn zeta. cbn [negb andb].
-  fold (pend_rec s c f decl d). set (nr := pend_rec s c f decl d).
+  fold (pend_rec stk s c f decl d). set (nr := pend_rec stk s c f decl d).
   assert (Hg : ~ In (s_next s) (gens (s_funcs s))).
   { intros H. unfold gens in H. apply in_map_iff in H. destruct H as (r & E & Hr). pose proof (w_next _ HC r Hr). lia. }
   destruct (find_bound (set_next s (s_next s + 1)) c f) as [r0|] eqn:Efb.
@@ -788,15 +789,15 @@ Proof.
   rewrite (p_other _ _ _ HP r Hr Hne) in Hp. discriminate.
 Qed.
 
-Lemma prel_def rt c f decl d s t : PRel c s t ->
-  PRel c (do_def all_off false false rt c f decl d s) (ref_def c t f decl d).
+Lemma prel_def rt stk c f decl d s t : PRel c s t ->
+  PRel c (do_def all_off false false rt stk c f decl d s) (ref_def c t f decl d).
 Proof.
   intros HP. pose proof HP as [HW HK En Efi Hmine Hother HL Hub].
-  destruct (winv_do_def_pend rt c f decl d s (c :: map f_ctx (s_funcs s)) [c] HW HK) as (HW' & HK' & _).
+  destruct (winv_do_def_pend rt stk c f decl d s (c :: map f_ctx (s_funcs s)) [c] HW HK) as (HW' & HK' & _).
   { intros r Hr. right. apply in_map. assumption. } { eapply prel_pendin; eassumption. } { left; reflexivity. } { left; reflexivity. }
-  destruct (do_def_frame false false rt c f decl d s) as (En' & Efi').
-  destruct (do_def_pend_exact rt c f decl d s HW Hub (prel_cpend c s t HP)) as (Elv & Hok & phi & Ef & Hphi).
-  set (s' := do_def all_off false false rt c f decl d s) in *.
+  destruct (do_def_frame false false rt stk c f decl d s) as (En' & Efi').
+  destruct (do_def_pend_exact rt stk c f decl d s HW Hub (prel_cpend c s t HP)) as (Elv & Hok & phi & Ef & Hphi).
+  set (s' := do_def all_off false false rt stk c f decl d s) in *.
   constructor; auto.
   - cbn. rewrite En', En. reflexivity.
   - cbn. rewrite Efi'. assumption.
@@ -840,7 +841,8 @@ Qed.
 Lemma prel_body c b : forall s t, PRel c s t -> PRel c (run_body all_off false false c b s) (ref_body c b t).
 Proof.
   unfold run_body, ref_body. induction b as [|x b IH]; intros s t HP; cbn [fold_left]; [assumption|].
-  apply IH. destruct x as [f decl d|f decl d|f]; cbn [run_stmt ref_stmt].
+  apply IH. destruct x as [f decl d|f decl d|f decl d|f]; cbn [run_stmt ref_stmt].
+  - apply prel_def; assumption.
   - apply prel_def; assumption.
   - apply prel_def; assumption.
   - apply prel_del; assumption.
@@ -885,7 +887,7 @@ Proof.
   { apply (sorted_map_filter _ _ (w_sorted _ (proj1 HW3))). }
   { intros g Hg. apply Htodo. assumption. }
   { intros r Hr Ec Hh. destruct (Hmine3 r Hr Ec) as (A & _). congruence. }
-  set (s4 := fold_left start_one todo s3) in *.
+  set (s4 := fold_left (start_one all_off) todo s3) in *.
   assert (Elv4 : lv s4 = map (started_fn c s3 todo) (lv s3)).
   { unfold lv. rewrite Ef4. apply filter_bound_map. intros x. apply started_fn_bound. }
   assert (Hmem : forall r, In r (s_funcs s3) -> memN (f_gen r) todo = (f_pending r && N.eqb (f_ctx r) c)).
@@ -926,7 +928,7 @@ Qed.
 Lemma run_body_files legacy started c b : forall s, s_files (run_body all_off legacy started c b s) = s_files s.
 Proof.
   unfold run_body. induction b as [|x b IH]; intros s; cbn [fold_left]; [reflexivity|]. rewrite IH.
-  destruct x as [f decl d|f decl d|f]; cbn [run_stmt]; [apply do_def_frame|apply do_def_frame|apply do_del_frame].
+  destruct x as [f decl d|f decl d|f decl d|f]; cbn [run_stmt]; [apply do_def_frame|apply do_def_frame|apply do_def_frame|apply do_del_frame].
 Qed.
 
 (* reload of everything / start-up in the default subsystem, when at most one script file exists afterwards *)
@@ -958,7 +960,7 @@ Proof.
   assert (Efs : s_files s2 = fl) by reflexivity.
   clearbody s2. clear Efl0 HR1 Hlive. clearbody fl.
   rewrite Efs. destruct fl as [|[c b] [|q fl']]; [| |cbn in Hlen'; lia].
-  - cbn [fold_left]. rewrite Efs. cbn [map fold_left]. apply finish_op; assumption.
+  - cbn [fold_left]. rewrite Efs. change (start_all all_off oracle s2 (map fst [])) with s2. apply finish_op; assumption.
   - cbn [fold_left fst snd].
     rewrite (run_body_files false false c b (set_inc s2 c (s_next s2))). cbn [set_inc s_files]. rewrite Efs. cbn [map fst fold_left].
     apply load_core_new.
